@@ -168,7 +168,7 @@ def run_C20(ctx):
     q = ctx.quick
     cfgs = [dict(entry="read", initcap=0, max=0), dict(entry="read", initcap=0, max=100), dict(entry="read", initcap=0, max=5000),
             dict(entry="conn", initcap=8192, max=1000), dict(entry="conn", initcap=100, max=10000), dict(entry="conn", initcap=0, max=0),
-            dict(entry="conn", initcap=300, max=0)]
+            dict(entry="conn", initcap=300, max=0), dict(entry="conn", initcap=0, max=5000), dict(entry="conn", initcap=0, max=100000)]
     if not q:
         cfgs += [dict(entry="read", initcap=0, max=4096), dict(entry="read", initcap=0, max=70000), dict(entry="conn", initcap=0, max=9000)]
     for i, c in enumerate(cfgs):
@@ -176,7 +176,7 @@ def run_C20(ctx):
         streams = scan_streams(limit, not q)
         consts = dict(Cfgs=Raw("{" + core.tla_value(c) + "}"),
                       Streams=Raw("{" + ", ".join(core.tla_value(s) for s in streams) + "}"),
-                      Policies=Raw("{0, 1000}" if q else "{0, 1000, 4096, 333}"))
+                      Policies=Raw(("{0}" if limit > 70000 else "{0, 1000}") if q else "{0, 1000, 4096, 333}"))
         name = "Scanner%d" % i
         d = core.write_mc(ctx, name, "Scanner", consts, invariants=["Bounded", "ReadAhead", "TooLongOnlyIfOversized", "Complete", "Export"],
                           properties=["Variant"], deadlock=True)
